@@ -6,7 +6,7 @@
 //! Abstract -> concrete projection: text VRs (UI, AE, LO) -> Strs of ASCII strings,
 //! US -> U16, UL -> U32, AT -> Tags; items are big-endian byte tuples.
 
-use dicom_core::header::DataElement;
+use dicom_core::header::{DataElement, Length};
 use dicom_core::value::Value as DValue;
 use dicom_core::{PrimitiveValue, Tag, VR};
 use dicom_encoding::transfer_syntax::TransferSyntaxIndex;
@@ -40,7 +40,16 @@ fn build_elems(elems: &Value) -> Vec<InMemElement> {
             let tag = Tag(j_usize(&a[0]) as u16, j_usize(&a[1]) as u16);
             let vr = VR::from_str(j_str(&e["vr"])).unwrap();
             let items: Vec<Vec<u8>> = j_arr(&e["v"]).iter().map(j_bytes).collect();
-            DataElement::new(tag, vr, DValue::Primitive(build_value(vr, &items)))
+            let value = DValue::Primitive(build_value(vr, &items));
+            // declared header length: exact (DataElement::new) or whatever the case says
+            match e.get("decl").and_then(|d| d.as_str()) {
+                None | Some("exact") => DataElement::new(tag, vr, value),
+                Some(_) => {
+                    let dl = e["dlen"].as_i64().unwrap_or(-1);
+                    let len = if dl < 0 { Length::UNDEFINED } else { Length(dl as u32) };
+                    DataElement::new_with_len(tag, vr, len, value)
+                }
+            }
         })
         .collect()
 }
@@ -69,6 +78,7 @@ fn execute(elems: &Value) -> Result<(u32, Vec<u8>), String> {
 fn vrs_of(elems: &Value) -> String {
     let mut v: Vec<String> = j_arr(elems)
         .iter()
+        .filter(|e| matches!(j_str(&e["vr"]), "UI" | "AE" | "LO"))
         .filter(|e| {
             let n: usize = j_arr(&e["v"]).iter().map(|i| j_arr(i).len()).sum::<usize>() + j_arr(&e["v"]).len().saturating_sub(1);
             n % 2 == 1
@@ -153,7 +163,14 @@ fn run_random(n: usize, out: &str) {
                         _ => r.bytes(4),
                     })
                     .collect();
-                json!({"tag": [0, e], "vr": vr, "v": items.iter().map(|b| bytes_json(b)).collect::<Vec<_>>()})
+                // declared header length: exact, or an arbitrary one (0, too long, undefined)
+                let (decl, dlen): (&str, i64) = match r.below(5) {
+                    0 | 1 => ("exact", 0),
+                    2 => ("zero", 0),
+                    3 => ("other", r.below(80) as i64),
+                    _ => ("undef", -1),
+                };
+                json!({"tag": [0, e], "vr": vr, "v": items.iter().map(|b| bytes_json(b)).collect::<Vec<_>>(), "decl": decl, "dlen": dlen})
             })
             .collect();
         let elems = Value::Array(elems);
